@@ -9,7 +9,9 @@ EXTRA = {"C02-B": ["C01", "C08"], "C08-A": ["C01"], "C12-A": [], "C05-A": ["C09"
          # wave 3: changes in the reader / shared helpers are judged by the property that owns that mechanism as well
          "C01-E": ["C02"], "C01-F": ["C02"], "C08-E": ["C02"], "C18-E": ["C02"], "C03-F": ["C14"], "C13-F": ["C07", "C06"], "C07-F": ["C06"],
          "C10-E": ["C11"], "C07-E": ["C06"], "C09-D": ["C05"],
-         "C04-G": ["C02"], "C13-H": ["C06"], "C18-H": ["C02"]}
+         "C04-G": ["C02"], "C13-H": ["C06"], "C18-H": ["C02"],
+         # wave 4
+         "C06-H": ["C16"], "C11-H": ["C16"], "C08-H": ["C14"]}
 tier = sys.argv[1] if len(sys.argv) > 1 else "quick"
 ids = sys.argv[2:] or sorted(os.path.basename(d) for d in glob.glob(VERIF + "/seeded/C*"))
 manifest = json.load(open(VERIF + "/MANIFEST.json"))
@@ -25,6 +27,8 @@ for sid in ids:
     subprocess.run(["git", "-C", "/repo", "worktree", "add", "-q", "--detach", wt, "HEAD"], check=True)
     try:
         r = subprocess.run(["git", "-C", wt, "apply", d + "/patch.diff"], capture_output=True)
+        if r.returncode != 0:  # context moved by later fixes: let patch(1) place the hunks
+            r = subprocess.run(["patch", "-p1", "-s", "-d", wt, "-i", d + "/patch.diff"], capture_output=True)
         if r.returncode != 0:
             print(sid, "PATCH DOES NOT APPLY to HEAD")
             meta.setdefault("matrix", {})["applies_to_head"] = False
